@@ -52,7 +52,7 @@ func init() {
 		Id: "C07",
 		RuleText: "each run: one quiet replica (never sees CheckTx) and 2-3 noisy replicas execute the same PRNG-built history; on the noisy ones the scheduler injects, at " +
 			"every before/after site of InitChain(after)/BeginBlock/DeliverTx/EndBlock/Commit, 0-3 CheckTx calls drawn from the block's own transactions (before and after delivery), earlier ones, " +
-			"and mempool-only transactions (valid config-update proposals for every option family, never delivered); no crashes. Oracle: transcripts of noisy replicas equal the quiet one. Non-trivial: >=1 CheckTx with code 0 and >=1 CheckTx strictly inside a block, >=5 block attempts compared; " +
+			"and mempool-only transactions (valid config-update proposals for every option family, never delivered); no crashes. Oracle: transcripts of noisy replicas equal the quiet one (app hash, validator updates, code/data/gas and events of every delivered transaction). Non-trivial: >=1 CheckTx with code 0 and >=1 CheckTx strictly inside a block, >=5 block attempts compared; " +
 			"distinct = distinct fingerprints.",
 		MakeSetup: func(rng *rand.Rand, tier string, seed uint64) *Setup {
 			nb := 12 + rng.Intn(25)
@@ -96,7 +96,9 @@ func init() {
 			return su
 		},
 		MakeOracle: func(e *core.Engine, tr *core.Trace) Oracle {
-			return &c07Oracle{tr: NewTranscriptOracle("C07", "quiet-vs-noisy")}
+			to := NewTranscriptOracle("C07", "quiet-vs-noisy")
+			to.Events = true // "delivered-transaction results": events (EVM logs, their indexes, the block bloom) included
+			return &c07Oracle{tr: to}
 		},
 	})
 }
